@@ -30,7 +30,7 @@ ASSUMPTIONS = [
     "orig_index is compared with the position in the list returned by the parse (creation order)",
 ]
 
-STD = re.compile(r'^(?P<twp>(?P<twp_num>\d{1,3})(?P<ns>[ns])|XXXz)(?P<rge>(?P<rge_num>\d{1,3})(?P<ew>[ew])|XXXz)(?P<sec>\d{2}|XX)$')
+STD = re.compile(r'(?P<twp>(?P<twp_num>\d{1,3})(?P<ns>[ns])|XXXz)(?P<rge>(?P<rge_num>\d{1,3})(?P<ew>[ew])|XXXz)(?P<sec>\d{2}|XX)')
 SOURCES = [None, 'doc,1', 7]
 _p = None
 
@@ -51,7 +51,7 @@ def space(tier):
 
 def check_tract(t, i, text, src):
     """-> (class, detail) of the first broken invariant, or None"""
-    m = STD.match(t.trs) if isinstance(t.trs, str) else None
+    m = STD.fullmatch(t.trs) if isinstance(t.trs, str) else None
     if not m:
         return 'malformed_trs', repr(t.trs)
     want = {
